@@ -45,6 +45,10 @@ type c12Case struct {
 	Unpriv  bool       `json:"unpriv"`
 	Probe   []string   `json:"probe"` // paths whose readability is reported (under the same fsuid)
 	Queries []c12Query `json:"queries"`
+	// Warm: contents written at the same paths and loaded once (result ignored) BEFORE the tree of this case is built in the same
+	// directory; the files of the case then get modification times OLDER than the warm ones (a backup restored with cp -p / rsync -t).
+	// What LoadDeviceConfigs returns may depend on the tree as it is now only, not on what an earlier load saw.
+	Warm []c12Op `json:"warm"`
 }
 
 type c12In struct {
@@ -256,6 +260,30 @@ func c12RunCase(c *c12Case, home string) (res c12Res) {
 		os.RemoveAll(dir)
 	}()
 	os.Chmod(dir, 0o755)
+	if len(c.Warm) > 0 {
+		for _, op := range c.Warm {
+			p := filepath.Join(dir, op.Path)
+			if op.Op == "mkdir" {
+				os.MkdirAll(p, 0o755)
+			} else if op.Op == "write" {
+				os.MkdirAll(filepath.Dir(p), 0o755)
+				os.WriteFile(p, []byte(op.Content), 0o644)
+			}
+		}
+		if err = os.Chdir(dir); err == nil {
+			var wg sync.WaitGroup
+			func() {
+				defer func() { recover() }()
+				LoadDeviceConfigs(context.Background(), &wg)
+			}()
+			c12FlushLogs()
+			os.Chdir(home)
+		}
+		entries, _ := os.ReadDir(dir)
+		for _, e := range entries {
+			os.RemoveAll(filepath.Join(dir, e.Name()))
+		}
+	}
 	var chmods []c12Op
 	for _, op := range c.Ops {
 		p := filepath.Join(dir, op.Path)
@@ -280,6 +308,15 @@ func c12RunCase(c *c12Case, home string) (res c12Res) {
 			res.Setup = fmt.Sprintf("%s %s: %v", op.Op, op.Path, err)
 			return
 		}
+	}
+	if len(c.Warm) > 0 {
+		old := time.Now().Add(-48 * time.Hour)
+		filepath.Walk(dir, func(p string, info os.FileInfo, err error) error {
+			if info != nil && info.Mode().IsRegular() {
+				os.Chtimes(p, old, old)
+			}
+			return nil
+		})
 	}
 	for i := len(chmods) - 1; i >= 0; i-- { // children before parents
 		if err = os.Chmod(filepath.Join(dir, chmods[i].Path), os.FileMode(chmods[i].Mode)); err != nil {
